@@ -252,14 +252,20 @@ def propagation(case, ctx):
     nd = m.ndim
 
     dimkey = m.dims[case["pick"] % nd] if case["pick"] % 3 == 0 else None
+    # metadata stored under the name of a class member - which for some is also the name of a constructor parameter
+    memberkey = rng.choice(['values', 'axes', 'dims', 'labels', 'dtype', 'copy', 'shape', 'T', 'size', 'ndim']) if case["pick"] % 4 == 1 else None
+    axmember = rng.choice(['values', 'name', 'dtype', 'tol', 'size']) if case["pick"] % 4 == 1 else None
+    k = rng.randrange(nd)
+    d = m.dims[k]
 
     def fresh():
         a_ = gen.build(sp)            # carries sentinel attrs + axis sentinels
         if dimkey:
             a_._attrs[dimkey] = 'metadata whose key equals a dimension name'
+        if memberkey:
+            a_._attrs[memberkey] = 'metadata whose key names a class member'
+            a_.axes[d]._attrs[axmember] = 'axis metadata whose key names a class member'
         return a_
-    k = rng.randrange(nd)
-    d = m.dims[k]
     lab = m.labels[k]
     n = len(lab)
     numeric = sp["kinds"][k] in 'if'
@@ -334,8 +340,17 @@ def propagation(case, ctx):
         res, exc = ctx.call(label, lambda: fn(a), operands=(a,))
         ctx.outcomes['propagation-ops'] += 1
         if exc is not None:
-            # judged by the property owning the operation; here only metadata is at stake
+            # judged by the property owning the operation; here only metadata is at stake ...
             ctx.outcomes['propagation-op-raised'] += 1
+            if memberkey:
+                # ... unless the operation works without the member-named entries and raises only because of them
+                a2 = gen.build(sp)
+                try:
+                    fn(a2)
+                    ctx.v(ID, "propagation-memberkey-raised:" + name, "%s with attrs[%r] and axis %r attrs[%r] set raised %s: %s (it works without these entries)" % (
+                        label, memberkey, d, axmember, type(exc).__name__, str(exc)[:120]))
+                except Exception:
+                    pass
             continue
         classes.append(('propagation', name, nd))
         if not common.is_da(res):
@@ -347,6 +362,13 @@ def propagation(case, ctx):
             res._attrs.pop(dimkey, None)
             if dimkey in a.dims and not model.labels_eq(a.axes[dimkey].values.tolist(), m.labels[m.dims.index(dimkey)]):
                 ctx.v(ID, "propagation-dimkey-overwrote-labels:" + name, "%s: the source's labels of %r were overwritten by the metadata entry" % (label, dimkey))
+        if memberkey and fate == 'carry':
+            ctx.outcomes['propagation-member-named-key'] += 1
+            if res.attrs.get(memberkey) != 'metadata whose key names a class member':
+                ctx.v(ID, "propagation-carry-memberkey:" + name, "%s: attrs[%r] (a key naming a class member) not carried: attrs=%r" % (label, memberkey, res.attrs))
+        if memberkey:
+            res._attrs.pop(memberkey, None)
+            a._attrs.pop(memberkey, None)
         p = monitors.meta_ok(res, fate)
         if p:
             ctx.v(ID, "propagation-%s:%s" % (fate, name), "%s: %s" % (label, p))
@@ -356,8 +378,11 @@ def propagation(case, ctx):
                 ctx.v(ID, "propagation-source-touched:" + name, "%s: source attrs now %r" % (label, a.attrs))
         if axis_kept is not None and axis_kept in res.dims:
             got = res.axes[axis_kept].attrs
-            if monitors.freeze(got) != monitors.freeze(monitors.axis_sentinel(axis_kept)):
-                ctx.v(ID, "axis-attrs-lost:" + name, "%s: attrs of axis %r are %r after slicing/reindexing it, expected %r" % (label, axis_kept, got, monitors.axis_sentinel(axis_kept)))
+            want = dict(monitors.axis_sentinel(axis_kept))
+            if axmember and axis_kept == d:
+                want[axmember] = 'axis metadata whose key names a class member'
+            if monitors.freeze(dict(got)) != monitors.freeze(want):
+                ctx.v(ID, "axis-attrs-lost:" + name, "%s: attrs of axis %r are %r after slicing/reindexing it, expected %r" % (label, axis_kept, dict(got), want))
     return classes
 
 
